@@ -264,6 +264,39 @@ def run(report, tier, seed):
             viol.append(("0-d comparison gives a wrong verdict", {"kind": "scalar"}))
     if numpy.asarray(small[2][0]).shape != (2, 2):
         viol.append(("comparison does not broadcast", {"kind": "broadcast"}))
+    # two-sided broadcasting: an (n,1) column (also (n,1,1)) against a (1,m) row / an (m,) vector / an (n',m) block - every
+    # result element must be the verdict for the pair numpy's broadcasting puts there
+    for _ in range(8 if tier == "quick" else 80):
+        n_, m_ = rng.randint(2, 3), rng.randint(2, 3)
+        A_ = [rng.choice(uni2) for _ in range(n_)]
+        B_ = [rng.choice(uni2) for _ in range(m_)]
+        if rng.random() < 0.4:
+            B_[0] = dict(A_[-1])
+        g, r = rng.choice(settings)
+        form = rng.randrange(3)
+        pa = numpoly.reshape(build_array(A_, (0, 1)), (n_, 1) if form < 2 else (n_, 1, 1))
+        pb = build_array(B_, (0, 1)) if form == 0 else numpoly.reshape(build_array(B_, (0, 1)), (1, m_))
+        ia, ib = numpy.broadcast_arrays(numpy.arange(n_).reshape(pa.shape), numpy.arange(m_).reshape(pb.shape))
+        with numpoly.global_options(sort_graded=g, sort_reverse=r):
+            try:
+                res = {name: numpy.asarray(op(pa, pb)) for name, (op, _, _) in OPS.items()}
+                res["eq"], res["ne"] = numpy.asarray(pa == pb), numpy.asarray(pa != pb)
+                _, mx_e = core.canon_elements(numpoly.maximum(pa, pb))
+            except Exception as exc:  # noqa: BLE001
+                viol.append((f"comparison of shapes {pa.shape} and {pb.shape} raised {type(exc).__name__}: {exc}", {"kind": "broadcast"}))
+                continue
+        n_pairs += ia.size
+        for k_, (i, j) in enumerate(zip(ia.ravel().tolist(), ib.ravel().tolist())):
+            sign = spec_sign(A_[i], (0, 1), B_[j], (0, 1), g, r)
+            got = tuple(bool(res[nm_].ravel()[k_]) if res[nm_].shape == ia.shape else None for nm_ in ("lt", "le", "gt", "ge", "eq", "ne"))
+            want = (sign < 0, sign <= 0, sign > 0, sign >= 0, sign == 0, sign != 0)
+            big = A_[i] if sign > 0 else B_[j]
+            wmax = sorted((tuple(sorted((v, e) for v, e in zip((0, 1), m) if e)), c) for m, c in big.items() if c)
+            if got != want or mx_e[k_] != wmax:
+                viol.append((f"broadcast comparison of shapes {pa.shape} x {pb.shape} (graded={g}, reverse={r}): element {k_} compares "
+                             f"a[{i}]={A_[i]} with b[{j}]={B_[j]}: (<, <=, >, >=, ==, !=) = {got}, documented order says {want}; maximum there is {mx_e[k_]}",
+                             {"kind": "broadcast", "a": str(A_), "b": str(B_), "shapes": [list(pa.shape), list(pb.shape)]}))
+                break
 
     failed, errors = cc.run() if tr_ok else ([], [])
     report.coverage.update({
@@ -275,7 +308,30 @@ def run(report, tier, seed):
         "coq_cases": len(cc.cases), "translator": "ok" if tr_ok else "failed", "source_facts": info,
         "traces_validated_against_impl": len(cc.cases),
     })
+    # ---- operands that SHARE a name tuple stored out of index order (names given explicitly to a constructor): the
+    #      verdict must be the one for the same polynomials with the names in index order (known finding D39)
+    probes = []
+    for g, r in settings:
+        with numpoly.global_options(sort_graded=g, sort_reverse=r):
+            a_ = numpoly.polynomial({(1, 0): 1}, names=("q1", "q0"))      # q1
+            b_ = numpoly.polynomial({(0, 1): 1}, names=("q1", "q0"))      # q0
+            q0_, q1_ = numpoly.variable(2)
+            try:
+                got = (bool(a_ < b_), bool(a_ > b_), str(numpoly.maximum(a_, b_)))
+                want = (bool(q1_ < q0_), bool(q1_ > q0_), str(numpoly.maximum(q1_, q0_)))
+            except Exception as exc:  # noqa: BLE001
+                got, want = f"{type(exc).__name__}: {exc}", None
+            if got != want:
+                probes.append((f"q1 and q0, both stored with names ('q1', 'q0') (graded={g}, reverse={r}): (a<b, a>b, maximum) = {got}, "
+                               f"for the same polynomials with names in index order {want}", {"kind": "order:unsorted-shared-names"}))
     kinds = set()
+    for what, rep in probes:
+        kf = report.match_known(rep["kind"])
+        if kf and rep["kind"] not in kinds:
+            report.known_finding(kf["id"], kf["what"] + " — e.g. " + what[:260])
+        elif not kf:
+            viol.append((what, rep))
+        kinds.add(rep["kind"])
     for what, rep in viol:
         if rep["kind"] in kinds:
             continue
@@ -295,7 +351,7 @@ def run(report, tier, seed):
     report.coverage["trusted_base"] = ["Coq 8.16.1 kernel + VM", "MathComp (ssrnum, path)", "translator compare_tr.py",
                                        "harness-side statement of the documented order (spec_sign)"]
     report.assumptions += ["coefficients are integers (ordered ring); complex and NaN coefficients have no order and are excluded",
-                           "indeterminate names in index order within each operand"]
+                           "indeterminate names in index order within each operand (operands sharing an out-of-order name tuple: known finding D39)"]
 
 
 def replay(path):
